@@ -222,12 +222,19 @@ def path_syscall(rng, name=None, n_lookups=None, error=None, interleave_unrelate
     return gen_syscall(rng, name, nested, error)
 
 
-def scenario(rng, ctxs):
+# decoders that read or write the by-design shared tables with arbitrary (argument-chosen) keys
+SHARED_TABLE_DECODERS = {'PERF_THD_Data', 'TRACE_DATA_NEWTHREAD', 'TRACE_DATA_THREAD_TERMINATE',
+                         'TRACE_DATA_THREAD_TERMINATE_PID', 'TRACE_DATA_EXEC', 'DBG_DYLD_TIMING_DLOPEN',
+                         'DBG_DYLD_TIMING_DLOPEN_PREFLIGHT', 'DBG_DYLD_TIMING_DLSYM', 'DBG_DYLD_TIMING_MAP_IMAGE',
+                         'PERF_Event'}
+
+
+def scenario(rng, ctxs, kinds=None, private_keys=False):
     """One complete kernel-shaped sequence for one thread.  ctxs: per-thread key space {'sid': base string id,
     'pid': base pid, 'tid': the thread} so that by-design shared tables use disjoint keys across threads."""
     inv = inventory()
-    kind = rng.choice(('syscall', 'syscall', 'path', 'path', 'newthread', 'exec', 'threadname', 'gstring', 'fault',
-                       'sampler', 'launch', 'single', 'single', 'terminate'))
+    kind = rng.choice(kinds or ('syscall', 'syscall', 'path', 'path', 'newthread', 'exec', 'threadname', 'gstring',
+                                'fault', 'sampler', 'launch', 'single', 'single', 'terminate'))
     if kind == 'syscall':
         name = rng.choice(inv['bsd'] + inv['mach_traps'])
         nested = unrelated(rng, rng.randrange(0, 3))
@@ -277,7 +284,8 @@ def scenario(rng, ctxs):
         return [A('TRACE_DATA_THREAD_TERMINATE', NONE, (ctxs['tid'], 0, 0, 0)),
                 A('TRACE_DATA_THREAD_TERMINATE_PID', NONE, (ctxs['pid'], 9, 0, 0))]
     # single NONE/ALL event of any decodable code that does not need a window
-    name = rng.choice([n for n in inv['decodable'] if n not in domain.TEXT_PAYLOAD])
+    name = rng.choice([n for n in inv['decodable'] if n not in domain.TEXT_PAYLOAD
+                       and not (private_keys and n in SHARED_TABLE_DECODERS)])
     return [A(name, rng.choice((NONE, ALL)), domain.gen_single(rng, name))]
 
 
